@@ -362,9 +362,55 @@ def corpus_case_(d, tier):
     return dict(files=[dict(name="f0", offset=off, corpus=name, raw=engine.b64(raw))], opts=o)
 
 
+@composite
+def mico8_case_(d, tier):
+    """Lattice Mico8 prom_init (-F Mico8): one 18 bit instruction word per line, five hex digits, no addresses - decided
+    for code files whose records follow each other without a gap from the start of the window"""
+    n = d.int(1, 40)
+    words = [d.weighted([(3, d.int(0, 0x3ffff)), (2, d.choice([0x3ffff, 0x1ff12, 0x2ff00, 0xff, 0xff00, 0x300ff, 0])),
+                         (1, 0x10000 | d.int(0, 255) << 8 | 0xff)]) for _ in range(n)]
+    cuts = sorted(set(d.int(1, n) for _ in range(d.int(0, 2))) - {n})
+    return dict(kind="mico8", words=words, cuts=cuts, base=d.choice([0, 0, 16, 0x100]), cpu=0x5c,
+                explicit_r=d.bool(0.5))
+
+
+def execute_mico8(case):
+    from vf import pfile
+    words, base = case["words"], case["base"]
+    recs, a = [], base
+    for lo, hi in zip([0] + case["cuts"], case["cuts"] + [len(words)]):
+        data = b"".join(w.to_bytes(4, "big") for w in words[lo:hi])      # (as asl stores Mico8 words: t_mico8)
+        recs.append(pfile.data(case["cpu"], a, data, 1, 4, "long"))
+        a += hi - lo
+    classes = ["F:Mico8", "mico8-records%d" % len(recs)]
+    key = "mico8|%d|%s" % (len(recs), ",".join(sorted(set("ff-middle" if (w >> 8) & 0xff == 0xff else "plain" for w in words))))
+    argv = ["p2hex", "x.p", "x.hex", "-F", "Mico8"]
+    if case["explicit_r"]:
+        argv += ["-r", "%d-%d" % (base, base + len(words) - 1)]
+    with run.Work("c06m") as d:
+        run.write_files(d, {"x.p": pfile.build(recs)})
+        r = run.run(argv, d)
+        out = run.read(d, "x.hex")
+    detail = dict(argv=argv, status=r.status, stderr=r.err[-300:], words=["%05X" % w for w in words[:60]])
+    if r.timed_out:
+        return engine.inconclusive("timeout", classes)
+    if r.signal or r.status != 0 or out is None:
+        return engine.bad("p2hex fails on a well-formed Mico8 code file: status %s signal %s" % (r.status, r.signal),
+                          key, classes, **detail)
+    got = out.decode("latin-1").split()
+    want = ["%05X" % (w & 0xfffff) for w in words]
+    if [g.upper() for g in got] != want:
+        i = next((i for i in range(min(len(got), len(want))) if got[i].upper() != want[i]), min(len(got), len(want)))
+        return engine.bad("Mico8 prom_init line %d is %s, the code file holds the word %s (%d lines for %d words)"
+                          % (i + 1, got[i] if i < len(got) else "<missing>", want[i] if i < len(want) else "<none>",
+                             len(got), len(want)), key, classes, **detail)
+    return engine.ok(key, classes)
+
+
 def strategy(tier):
     from hypothesis import strategies as st
-    return st.integers(0, 99).flatmap(lambda k: corpus_case_(tier) if k < 12 else strategy_(tier))
+    return st.integers(0, 99).flatmap(lambda k: corpus_case_(tier) if k < 12 else
+                                      (mico8_case_(tier) if k < 16 else strategy_(tier)))
 
 
 # ---------------------------------------------------------------- reference model
@@ -1055,6 +1101,8 @@ def boundary_classes(groups, scale_bytes):
 
 
 def execute(case):
+    if case.get("kind") == "mico8":
+        return execute_mico8(case)
     o = case["opts"]
     mdl = model(case)
     classes = ["F:" + o.get("F", "default"), "files%d" % len(case["files"])]
@@ -1172,6 +1220,8 @@ def coverage_extra(tier, classes):
 
 
 def show(case):
+    if case.get("kind") == "mico8":
+        return dict(kind="mico8", words=["%05X" % w for w in case["words"]], cuts=case["cuts"], base=case["base"])
     return dict(argv=argv_of(case)[0], env=argv_of(case)[3],
                 files=[dict(name=f["name"], corpus=f.get("corpus"),
                             recs=[(r["kind"], hex(r.get("cpu", 0)), r.get("seg"), r.get("gran"), hex(r["addr"]), r.get("n"))
